@@ -190,6 +190,35 @@ impl SendBuffer {
     }
 }
 
+/// Read-only probe for the verification hooks (compiled only with `--cfg quinn_rs_quinn_verif`).
+#[cfg(quinn_rs_quinn_verif)]
+impl SendBuffer {
+    /// `[unacked_len, offset, unsent, n, segment lengths * n, a, (start, end) * a (acks),
+    ///   r, (start, end) * r (retransmits)]`
+    pub(super) fn verif_probe(&self) -> Vec<i128> {
+        let mut o = vec![
+            self.unacked_len as i128,
+            self.offset as i128,
+            self.unsent as i128,
+            self.unacked_segments.len() as i128,
+        ];
+        for s in self.unacked_segments.iter() {
+            o.push(s.len() as i128);
+        }
+        o.push(self.acks.iter().count() as i128);
+        for r in self.acks.iter() {
+            o.push(r.start as i128);
+            o.push(r.end as i128);
+        }
+        o.push(self.retransmits.iter().count() as i128);
+        for r in self.retransmits.iter() {
+            o.push(r.start as i128);
+            o.push(r.end as i128);
+        }
+        o
+    }
+}
+
 #[cfg(test)]
 mod tests {
     use super::*;
